@@ -536,6 +536,21 @@ func (P *Prog) checkCoercedValueStored(r *Result) {
 				}
 			}
 			has := p.has("DEST", "coerced")
+			// a present value reaches the tests only through the coercer: a shortcut for data that already has the
+			// destination's type (`if v, ok := ctx.Data.(T); ok { *dest = v }`) bypasses a coercer the user configured
+			// to refuse some values of that type
+			present, coerced := false, false
+			for _, it := range p.items {
+				switch {
+				case it.kind == "ZERO" && it.val == "F":
+					present = true
+				case it.kind == "COERCE":
+					coerced = true
+				case present && !coerced && (it.kind == "TESTS" || (it.kind == "DEST" && it.val != "catch" && it.val != "default")):
+					problems = append(problems, "a present input reaches the destination or the tests without passing through the coercer  [path: "+p.String()+"]")
+					present = false
+				}
+			}
 			switch {
 			case ok && has:
 				stored = true
